@@ -1,5 +1,5 @@
 (** C11: a failed parse returns an error that locates the failure correctly. *)
-From PegV Require Import Base.Tac Spec.Syntax Spec.Peg Model.Machine Model.Gen Proofs.Forest Proofs.Top Properties.Example.
+From PegV Require Import Base.Tac Spec.Syntax Spec.Peg Model.Machine Model.Runtime Model.Gen Proofs.Forest Proofs.RuntimeProofs Proofs.Top Properties.Example.
 
 (** Parse returns nil exactly when the entry rule matched (C01).  On failure the error's token is the
     first, in time order, of the non-empty tokens completed during the attempt (failed branches and
@@ -13,6 +13,25 @@ Theorem C11_error_token :
       maxtok st' = first_furthest evs /\ tok_ok (length buf) (maxtok st').
 Proof. exact c11_error_token. Qed.
 Print Assumptions C11_error_token.
+
+(** For every rune list and every token with begin <= end <= number of runes (in particular the error
+    token, by the theorem above; also the empty input, offset 0 and end of input), the message fields
+    computed by translatePositions + Error() are: 1-based line = 1 + newlines before the offset,
+    1-based column = 1 + distance from the start of that line, for begin and for end, and the quoted
+    text is exactly the runes in [begin, end).  [Some] = the slice is in range (no panic). *)
+Theorem C11_positions :
+  forall buf t, tk_begin t <= tk_end t -> tk_end t <= length buf ->
+    error_fields (buf ++ [endSymbol]) t =
+      Some (tk_rule t, linecol buf (tk_begin t), linecol buf (tk_end t),
+            firstn (tk_end t - tk_begin t) (skipn (tk_begin t) buf)).
+Proof. exact error_fields_spec. Qed.
+Print Assumptions C11_positions.
+
+Example C11_positions_nonvacuous :
+  error_fields ([97; 10; 98; 99; 10; 10; 100] ++ [endSymbol])%Z (7, (2, 6))
+  = Some (7, (2, 1), (4, 1), [98; 99; 10; 10]%Z) /\
+  error_fields ([] ++ [endSymbol]) (0, (0, 0)) = Some (0, (1, 1), (1, 1), []).
+Proof. vm_compute. split; reflexivity. Qed.
 
 Example C11_nonvacuous :
   mach_view (mach_of true ex_in_bad 0 zero_state) = Some (false, 0, [], (2, (0, 2))).
